@@ -211,8 +211,55 @@ def random_case(rng):
     return rows, {"name": "s", "start": a, "end": b, "strand": rng.choice([1, -1]), "tags": rng.choice([[], ["Painted"], ["Painted", "X"]])}, ops
 
 
+def shared_lookup_stream(ctx, count):
+    """the SAME region looked up several times on one IndexedAssembly: the results must be independent objects — editing one of them
+    must leave the others (and later lookups of that region) exactly what a fresh lookup gives, each consistent on its own"""
+    from tola.assembly.indexed_assembly import IndexedAssembly
+    from tola.assembly.fragment import Fragment
+    out, rng = ctx.out, ctx.rng
+    for _ in range(count):
+        rows, bait, _ops = random_case(rng)
+        sc = conv.to_real_scaffold({"name": "s", "rows": rows})
+        try:
+            ia = IndexedAssembly("x", scaffolds=[sc])
+            mk = lambda: ia.find_overlaps(Fragment("s", bait["start"], bait["end"], bait["strand"], tuple(bait.get("tags", ()))))
+            r1 = mk(); r2 = mk()
+        except Exception:
+            continue
+        if r1 is None or r2 is None:
+            continue
+        fresh = enc_ov(r2)
+        ops = []
+        for _k in range(rng.randint(1, 3)):
+            op = rng.choice(["discard_start", "discard_end", "trim_large", "trim_first", "trim_last"])
+            ops.append(op)
+            try:
+                if op == "discard_start": r1.discard_start()
+                elif op == "discard_end": r1.discard_end()
+                elif op == "trim_large": r1.trim_large_overhangs(rng.choice([1, 3, 10]))
+                elif op == "trim_first": r1.trim_fragment(r1.rows[0])
+                elif op == "trim_last": r1.trim_fragment(r1.rows[-1])
+            except Exception:
+                break
+        inp = {"rows": rows, "bait": bait, "ops_applied_to_the_first_result": ops}
+        out.case("same-region-twice", inp, ("shared", tuple(ops)))
+        try:
+            r3 = mk()
+            after2, after3 = enc_ov(r2), (enc_ov(r3) if r3 is not None else None)
+        except Exception as e:
+            out.oracle_fail("same-region-twice", inp, f"{conv.errkind(e)} while reading a second result of the same region after the first was edited")
+            continue
+        if after2 != fresh:
+            out.oracle_fail("same-region-twice", inp, "a second result of the same lookup changed when the FIRST one was edited (span/rows no longer consistent)",
+                            detail={"before": fresh, "after": after2})
+        elif after3 != fresh:
+            out.oracle_fail("same-region-twice", inp, "a later lookup of the same region differs from the first lookup after an earlier result was edited",
+                            detail={"first": fresh, "later": after3})
+
+
 def run(ctx):
     rng = ctx.rng
+    shared_lookup_stream(ctx, 3000 if ctx.thorough else 400)
     if ctx.thorough:
         check_cases(ctx, "small-scope", small_scope(rng, 3, 2))
         ctx.out.exhaustive = True
